@@ -1721,7 +1721,86 @@ class C19(Prop):
                     res.oracle_failures.append(dict(key=f"C19|type-{tid}|{fld}", case=case, detail=impl[i][:200]))
 
 
-REGISTRY = {"C19": C19(), "C04": C04(), "C11": C11(), "C13": C13(), "C06": C06(), "C15": C15(), "C16": C16(), "C05": C05(), "C18": C18(), "C08": C08(), "C07": C07(), "C03": C03(), "C02": C02(), "C20": C20(), "C09": C09(), "C10": C10(), "C14": C14(), "C12": C12()}
+# ------------------------------------------------------------------------------------------
+# C17
+
+class C17(Prop):
+    STREAMS = ["c02", "c03", "c05", "c06", "c07", "c08", "c09", "c10", "c14", "c12", "c13", "c20", "c04"]
+    rule = ("two builds of the harness from the same tree — rustflags target-cpu=native (AVX2 + PCLMUL code paths) and target-cpu=x86-64 (SSE2 vectors, "
+            "portable v256/v512 and the fallback block primitives and digit parser) — run over the complete case streams of C02, C03, C05, C06, C07, C08, "
+            "C09, C10, C14, C12, C13, C20 and C04; the two transcripts (accept/reject, decoded values, raw spans, serialized bytes, error codes and offsets) "
+            "must be equal line by line; and the primitives called directly in BOTH builds (prefix_xor on single bits, pairs and random words; "
+            "get_nonspace_bits with every byte value in every lane; u8xN eq/le and i8xN eq/le/gt bit masks for N = 16, 32, 64 with every byte value in every "
+            "lane against 8 constants, plus random vectors; store round trip) against the Lean lane-wise model; non-trivial = every case")
+    trusted = ["the CPU executes the vendor intrinsics as documented; the baseline build still uses SSE2 (there is no x86-64 target without it): the scalar "
+               "v128 module is not exercised on this machine", "unsigned gt is todo!() in every backend and is not called"]
+    assumptions = []
+
+    def explore(self, ctx, res):
+        base = build_variant(ctx, "base", rustflags="--cfg sonic_rs_verif -C target-cpu=x86-64")
+        if base is None:
+            return
+        # the primitives against the model, in both builds
+        cp = generate(ctx, "c17")
+        with open(cp) as f:
+            cases = f.read().splitlines()
+        outs = {}
+        for tag, binary in (("native", ctx["vh"]), ("baseline", base)):
+            op = cp + "." + tag
+            rc, err = ctx["run_lines"](binary, ["c17", "run"], cp, op)
+            with open(op, errors="replace") as f:
+                outs[tag] = f.read().splitlines()
+            if rc != 0 or len(outs[tag]) != len(cases):
+                res.oracle_failures.append(dict(key=f"c17:process-abort:{tag}", case=cases[min(len(outs[tag]), len(cases) - 1)], detail=err[-300:]))
+        model = None
+        if ctx["driver"]:
+            mp = cp + ".model"
+            ctx["run_lines"](ctx["driver"], [], cp, mp)
+            with open(mp, errors="replace") as f:
+                model = f.read().splitlines()
+        for i, case in enumerate(cases):
+            res.evaluations += 1
+            res.nontrivial(case)
+            res.distribution["primitive:" + case.split(" ")[1]] += 1
+            a = outs["native"][i] if i < len(outs["native"]) else None
+            b = outs["baseline"][i] if i < len(outs["baseline"]) else None
+            if a != b:
+                res.oracle_failures.append(dict(key="C17|primitive|backends-differ|" + case.split(" ")[1], case=case, detail=f"native {a} baseline {b}"))
+            if model is not None:
+                m = model[i] if i < len(model) else None
+                if m is None:
+                    res.model_disagreements.append(dict(key="c17:model-output-missing", case=case, detail=""))
+                elif a != m or b != m:
+                    # a primitive that differs from its lane-wise specification in a build is a violation of the second half of the property
+                    res.oracle_failures.append(dict(key="C17|primitive|differs-from-lane-wise-specification|" + case.split(" ")[1], case=case, detail=f"native {a} baseline {b} model {m}"))
+            if len(res.samples) < 3 and i % max(1, len(cases) // 3) == 0:
+                res.samples.append({"case": case[:200], "impl": str(a)[:200], "model": (model[i][:200] if model and i < len(model) else None)})
+        # the library through both builds
+        for name in self.STREAMS:
+            cp = generate(ctx, name)
+            with open(cp) as f:
+                cases = f.read().splitlines()
+            tr = {}
+            for tag, binary in (("native", ctx["vh"]), ("baseline", base)):
+                op = cp + ".c17." + tag
+                rc, err = ctx["run_lines"](binary, [name, "run"], cp, op)
+                with open(op, errors="replace") as f:
+                    tr[tag] = f.read().splitlines()
+                if rc != 0 or len(tr[tag]) != len(cases):
+                    res.oracle_failures.append(dict(key=f"c17:process-abort:{name}:{tag}", case=cases[min(len(tr[tag]), len(cases) - 1)] if cases else name, detail=err[-300:]))
+            nn = min(len(cases), len(tr["native"]), len(tr["baseline"]))
+            for i in range(nn):
+                res.evaluations += 1
+                if tr["native"][i] != tr["baseline"][i]:
+                    a, b = tr["native"][i].split(" "), tr["baseline"][i].split(" ")
+                    fld = next((x.split("=")[0] for x, y in zip(a, b) if x != y), "line")
+                    res.oracle_failures.append(dict(key=f"C17|{name}|backends-differ|{fld}", case=cases[i], detail=f"native {tr['native'][i][:200]} baseline {tr['baseline'][i][:200]}"))
+            res.distribution["stream:" + name] += nn
+            if len(res.samples) < 6 and nn:
+                res.samples.append({"case": cases[0][:200], "impl": tr["native"][0][:200], "model": tr["baseline"][0][:200]})
+
+
+REGISTRY = {"C17": C17(), "C19": C19(), "C04": C04(), "C11": C11(), "C13": C13(), "C06": C06(), "C15": C15(), "C16": C16(), "C05": C05(), "C18": C18(), "C08": C08(), "C07": C07(), "C03": C03(), "C02": C02(), "C20": C20(), "C09": C09(), "C10": C10(), "C14": C14(), "C12": C12()}
 for _k, _v in REGISTRY.items():
     _v.pid = _k
 
